@@ -4,7 +4,10 @@ import json, os, subprocess
 ROOT = os.path.dirname(os.path.abspath(__file__))
 import sys
 sys.path.insert(0, ROOT)
-from props import PROPS, NOT_APPLICABLE, HOOK_COMMITS
+from props import PROPS, NOT_APPLICABLE
+HOOK_COMMITS = subprocess.run(["git", "-C", "/repo", "log", "--format=%h %s", "--grep", "^verif hook"],
+                              capture_output=True, text=True).stdout.strip().splitlines()
+HOOK_COMMITS = [l.split(" ")[0] for l in reversed(HOOK_COMMITS)]
 
 all_ids = [json.loads(l)["id"] for l in open(os.path.join(ROOT, "properties.jsonl"))]
 checks = []
